@@ -1,9 +1,105 @@
 import LinfaSpec.Model.Proto
+import LinfaSpec.Model.Scalar
+import LinfaSpec.Model.Smo
 
 namespace LinfaSpec.Drv.C13
-open LinfaSpec.Proto
+open LinfaSpec.Proto LinfaSpec.Smo
 
-/-- stub: replaced when the property's model lands -/
-def handle (_toks : List String) : String := "bad-op"
+/-- `F::cast(1e-10)` for `f64` -/
+def tiny64 : Float := Float.ofBits 0x3ddb7cdfd9d7bdbb
+/-- `f64::INFINITY` -/
+def inf64 : Float := Float.ofBits 0x7ff0000000000000
+/-- `F::cast(100.) * F::epsilon()` -/
+def thr64 : Float := 100.0 * Float.ofBits 0x3cb0000000000000
+
+structure Problem where
+  n : Nat
+  lin : Bool
+  X : List (List Float)
+  env : Env Float
+  st : St Float
+
+def parseBools (s : String) : Option (List Bool) :=
+  (parseList parseNat s).map fun l => l.map (· != 0)
+
+def parseProblem (toks : List String) : Option Problem := do
+  let n ← argNat toks "n"
+  let lin ← argNat toks "lin"
+  let X ← argF64s2 toks "X"
+  let K ← argF64s2 toks "K"
+  let y ← (arg toks "y").bind parseBools
+  let p ← argF64s toks "p"
+  let b ← argF64s toks "b"
+  let a0 ← argF64s toks "a0"
+  let eps ← argF64 toks "eps"
+  if K.length != n || y.length != n || p.length != n || b.length != n || a0.length != n then none else
+  if K.any (·.length != n) then none else
+  let env : Env Float := { K := K, y0 := y, eps := eps, tiny := tiny64, inf := inf64 }
+  some { n := n, lin := lin != 0, X := X, env := env, st := init env a0 p b y }
+
+def showBools (l : List Bool) : String := showList (fun b => if b then "1" else "0") l
+
+def dumpStr (s : St Float) : String :=
+  s!"A={showList showF64c s.alpha}/U={showList showF64c s.ub}/G={showList showF64c s.grad}/H={showList showF64c s.gbar}" ++
+  s!"/S={showList toString s.active}/N={s.nactive}/X={if s.unshrink then 1 else 0}/P={showList showF64c s.p}" ++
+  s!"/Y={showBools s.y}/B={showList showF64c s.bounds}"
+
+/-- one scripted step; `none` on an ill-formed token -/
+def stepOne (e : Env Float) (s : St Float) (tok : String) : Option (St Float × String) :=
+  match tok.splitOn "." with
+  | ["u", a, b] => do
+    let a ← a.toNat?; let b ← b.toNat?
+    let na := s.nactive
+    if na ≥ 2 then
+      let i := a % na
+      let j := b % na
+      let j := if i == j then (i + 1) % na else j
+      some (update e s i j, "")
+    else some (s, "")
+  | ["s", a, b] => do
+    let a ← a.toNat?; let b ← b.toNat?
+    let na := s.nactive
+    if na ≥ 1 then some (swap s (a % na) (b % na), "") else some (s, "")
+  | ["r"] => some (reconstructGradient e s, "")
+  | ["d"] => some (doShrinking e s, "")
+  | ["w"] =>
+    let (i, j, opt) := selectWorkingSet e s
+    let s' := if opt then s else update e s i j
+    some (s', s!"/W={i}.{j}.{if opt then 1 else 0}")
+  | ["h"] => some (s, s!"/R={showF64c (calculateRho e s)}")
+  | _ => none
+
+def handleStep (toks : List String) : Option String := do
+  let pr ← parseProblem toks
+  let script ← arg toks "script"
+  let steps := splitOn' script ","
+  let rec go (s : St Float) (acc : List String) : List String → Option (List String)
+    | [] => some acc.reverse
+    | t :: rest => do
+      let (s', extra) ← stepOne pr.env s t
+      go s' ((dumpStr s' ++ extra) :: acc) rest
+  let outs ← go pr.st [dumpStr pr.st] steps
+  some ("ok " ++ " ".intercalate outs)
+
+def handleSolve (toks : List String) : Option String := do
+  let pr ← parseProblem toks
+  let shrink ← argNat toks "shrink"
+  let fuel ← argNat toks "fuel"
+  let d := (pr.X.headD []).length
+  let r := solve pr.env thr64 (shrink != 0) fuel pr.X d pr.st
+  if !r.finished || r.iterations ≥ fuel then some "ok longrun" else
+  let w :=
+    if pr.lin then s!"L:{showList showF64c r.linear}"
+    else
+      let rows := r.support.map fun i => pr.X.getD i []
+      "V:" ++ (if rows.isEmpty then "none" else showList2 showF64c rows)
+  some s!"ok it={r.iterations} thr=1 A={showList showF64c r.alpha} rho={showF64c r.rho} obj={showF64c r.obj} {w}"
+
+def handle (toks : List String) : String :=
+  let r := match toks with
+    | "step" :: rest => handleStep rest
+    | "solve" :: rest => handleSolve rest
+    | _ => none
+  r.getD "bad-op"
 
 end LinfaSpec.Drv.C13
